@@ -48,14 +48,24 @@ func (fakeCRS) Code() string        { return "" }
 // tile matrices 0..deepestID, tiles of 1x1 "pixels", root matrix 1x1, so level = id + 4 and
 // the internal pixel at the deepest id measures cellSize/16.
 func newSyntheticGrid(deepestID int, cellSize float64, ox, oy float64) (*Grid, error) {
+	return newSyntheticGridTW(deepestID, cellSize, ox, oy, 1)
+}
+
+// newSyntheticGridTW: the same with tiles of tw x tw "pixels" (tw need not be a power of two: IsQuadTree accepts such
+// sets, and the level of a tile matrix is then id + floor(log2 tw) + 4 at every site that computes it)
+func newSyntheticGridTW(deepestID int, cellSize float64, ox, oy float64, tw uint) (*Grid, error) {
 	origin := tms20.TwoDPoint([2]float64{ox, oy})
 	t := tms20.TileMatrixSet{CRS: fakeCRS{}, OrderedAxes: []string{"X", "Y"}, TileMatrices: map[tms20.TMID]tms20.TileMatrix{}}
 	for id := 0; id <= deepestID; id++ {
 		cs := cellSize * float64(uint(1)<<uint(deepestID-id))
 		t.TileMatrices[id] = tms20.TileMatrix{ID: strconv.Itoa(id), ScaleDenominator: cs / tms20.StandardizedRenderingPixelSize,
-			CellSize: cs, CornerOfOrigin: tms20.BottomLeft, PointOfOrigin: &origin, TileWidth: 1, TileHeight: 1, MatrixWidth: 1, MatrixHeight: 1}
+			CellSize: cs, CornerOfOrigin: tms20.BottomLeft, PointOfOrigin: &origin, TileWidth: tw, TileHeight: tw, MatrixWidth: 1, MatrixHeight: 1}
 	}
-	return gridFor(fmt.Sprintf("synthetic(d=%d,cell=%g,origin=%g,%g)", deepestID, cellSize, ox, oy), t, deepestID, true)
+	name := fmt.Sprintf("synthetic(d=%d,cell=%g,origin=%g,%g)", deepestID, cellSize, ox, oy)
+	if tw != 1 {
+		name += fmt.Sprintf(",tilewidth=%d", tw)
+	}
+	return gridFor(name, t, deepestID, true)
 }
 
 func gridFor(name string, t tms20.TileMatrixSet, deepestID int, dyadic bool) (*Grid, error) {
@@ -235,10 +245,49 @@ func asOG(e error, target *pointindex.OutsideGridError) bool {
 // runSnap calls the implementation with panic recovery and a watchdog.
 func runSnap(g *Grid, poly [][]Pt, ids []int, cfg snap.Config, timeout time.Duration) *Result {
 	fp, _ := g.toFloatPoly(poly)
+	skippedPolygonBefore(g, poly, ids, cfg, timeout)
 	return runSnapFloat(g, fp, ids, cfg, timeout)
 }
 
+// skippedPolygonBefore: what was snapped before must not matter to ANY property.  Before one call in four (chosen by the
+// polygon itself, not by the random stream) another polygon is snapped with the same tile matrix set, ids and settings:
+// its vertices lie half-way along this polygon's edges (inside pixels these edges pass through) and its last vertex lies
+// outside the grid, so that with ignore-outside-grid it is skipped after its other vertices were looked at.  State that
+// survives a call (a reused index, a cache, a pool) then shows as vertices, routes or shapes this polygon does not have.
+func skippedPolygonBefore(g *Grid, poly [][]Pt, ids []int, cfg snap.Config, timeout time.Duration) {
+	if len(poly) == 0 || len(poly[0]) < 2 {
+		return
+	}
+	var h uint64 = 1469598103934665603
+	for _, r := range poly {
+		for _, p := range r {
+			h = (h ^ uint64(p[0])) * 1099511628211
+			h = (h ^ uint64(p[1])) * 1099511628211
+		}
+	}
+	if h%4 != 0 {
+		return
+	}
+	ring := poly[0]
+	var mids []Pt
+	for k := range ring {
+		a, b := ring[k], ring[(k+1)%len(ring)]
+		mids = append(mids, Pt{(a[0] + b[0]) / 2, (a[1] + b[1]) / 2})
+	}
+	mids = append(mids, Pt{g.Ext[0] - g.Res, ring[0][1]})
+	cfgI := cfg
+	cfgI.IgnoreOutsideGrid = true
+	fp, _ := g.toFloatPoly([][]Pt{mids})
+	_ = runSnapFloat(g, fp, ids, cfgI, timeout)
+}
+
 func runSnapFloat(g *Grid, fp geom.Polygon, ids []int, cfg snap.Config, timeout time.Duration) *Result {
+	return runSnapShared(g, fp, append([]int(nil), ids...), cfg, timeout)
+}
+
+// runSnapShared hands the caller's own values to the implementation: the polygon and the id slice are NOT copied, so a
+// caller that keeps using them (snapping the same value again, refilling one id buffer) sees what the call did to them.
+func runSnapShared(g *Grid, fp geom.Polygon, ids []int, cfg snap.Config, timeout time.Duration) *Result {
 	res := &Result{}
 	done := make(chan struct{})
 	t0 := time.Now()
@@ -250,8 +299,7 @@ func runSnapFloat(g *Grid, fp geom.Polygon, ids []int, cfg snap.Config, timeout 
 				res.Stack = string(debug.Stack())
 			}
 		}()
-		idsCopy := append([]int(nil), ids...)
-		res.Raw = snap.SnapPolygon(fp, g.TMS, idsCopy, cfg)
+		res.Raw = snap.SnapPolygon(fp, g.TMS, ids, cfg)
 	}()
 	select {
 	case <-done:
